@@ -1,4 +1,6 @@
-"""C14 - no message lost or half-applied when a command fails midway (dict backend).
+"""C14 - no message lost or half-applied when a command fails midway.
+
+Dict backend (faults at lock checkpoints and loop handles):
 
 Design: MailboxSync.tla ... (the split MOVE/COPY/APPEND actions live in
 MailboxFault.tla, checked by TLC with Cancel/Fail at every label).
@@ -8,15 +10,38 @@ subsystem), the run is repeated with a fault injected at k: task cancellation,
 client disconnect (EOF), or an exception raised by that storage
 call; a second session runs a command at a seeded placement.  After every driver
 step the content of all mailboxes is logged; TLC validates against
-Trace_Conserve.tla."""
+Trace_Conserve.tla.
+
+Maildir backend (fault = process kill at every filesystem-operation boundary):
+Design: MaildirStore.tla (filesystem-operation granularity, Crash in every state) with the
+invariants MoveFileSomewhere / MoveNeverInLimbo / MoveExactlyOne, plus a model mutant
+(MOVE that removes the source file first) that TLC must reject.
+Code: for every history (two folders, seeded messages, optionally a second session's
+complete command, then ONE command under test: MOVE / UID MOVE, COPY, multi-APPEND,
+EXPUNGE / UID EXPUNGE / CLOSE, refused commands) on both layouts, the command's
+filesystem-operation trace is recorded in a forked child, then one child per operation k is
+killed (os._exit) immediately before it, stale lock files are aged and a NEW backend on the
+same directory dumps every mailbox through IMAP (maildir_crash.run_job14).  pre-command
+dump + acknowledgement + kill point + post-restart dump = one trace; TLC validates all of
+them against Trace_ConserveKill.tla (clauses C14_NeverInLimbo, C14_MoveExactlyOne,
+C14_AllOrNothing, C14_RefusedInert)."""
 
 from __future__ import annotations
 
+import concurrent.futures as cf
+import json
+import multiprocessing
+import os
 import random
+import shutil
+import tempfile
+import threading
+import time
 
-from ..common import Run
+from ..common import Run, Known
 from .. import tlc
 from ..syncrun import SyncRun
+from . import maildir_crash as mc
 
 FAULTS = ('none', 'cancel', 'drop', 'raise')
 
@@ -170,6 +195,19 @@ def one(seed, cmd, k, fault, bcmd, bplace, family='plain', micro=False):
 
 def main(tier: str) -> int:
     run = Run('C14', tier, level='model_checking')
+    # the maildir half forks: start it before TLC threads exist, collect it at the end
+    md = MaildirPart(run, tier)
+    md.start()
+    try:
+        _dict_part(run, tier)
+        if not run.machinery_errors:
+            md.collect()
+        return run.finish()
+    finally:
+        md.close()
+
+
+def _dict_part(run: Run, tier: str) -> None:
     rng = random.Random(run.seed * 15485863 + 14)
     run.cov['rule'] = (
         'executions = for each seeded command instance (MOVE / MOVE to self / COPY / APPEND x2,x3 / '
@@ -179,14 +217,29 @@ def main(tier: str) -> int:
         'after every driver step. non-trivial = a fault was injected strictly inside the command '
         '(after its first and before its last parking point); distinct = distinct (command, k, '
         'fault, second-session command, placement)')
-    run.assumptions += ['lock acquisitions are treated as possible suspension points',
-                        'dict backend; process kill / os-level faults belong to the maildir part (C15)',
-                        'the second session does not expunge or delete mailboxes']
+    run.cov['rule'] += (
+        '.  Maildir half: executions = crash runs: one (history, layout, crash point k) = the '
+        'real maildir backend killed (os._exit) immediately before the k-th filesystem operation '
+        'of the command under test (k = -1: not killed), restarted on the same directory and '
+        'dumped; every k = 0..L-1 of every history is run; non-trivial = the kill fell after the '
+        'command\'s first operation')
+    run.assumptions += ['dict part: lock acquisitions are treated as possible suspension points',
+                        'dict part: the second session does not expunge or delete mailboxes',
+                        'maildir part: a fault is a process kill between two filesystem calls '
+                        '(os._exit): what was written before the kill is on disk (no power-loss '
+                        'reordering); os-level call FAILURES (EIO, ENOSPC) are not injected',
+                        'maildir part: stale *.lock files left by the kill are aged past '
+                        'FileLock\'s 600 s expiry before the restart (as in C15)',
+                        'maildir part: the second session\'s command is complete before the '
+                        'command under test starts (overlap is the dict part and C02); MOVE onto '
+                        'the selected mailbox and MOVE back (open C10 findings) are not in the '
+                        'histories',
+                        'maildir part: message content is compared modulo CRLF/LF (C03 finding)']
     res = tlc.run_tlc('MailboxSync.tla', 'MailboxSync_ideal_small.cfg', workers=16, timeout=3000)
     run.add_model(res, 'ideal')
     if not res.ok:
         run.machinery(f'MailboxSync Ideal configuration fails: {res.violated or res.error}')
-        return run.finish()
+        return
     # MOVE and multi-APPEND cut at their lock checkpoints, with faults (MailboxFault.tla): with
     # each command one critical section (Devs = {}) conservation holds in every state; with the
     # two sections per MOVE / one per message that the tree has (the two open known findings,
@@ -196,14 +249,14 @@ def main(tier: str) -> int:
     run.add_model(r, 'MailboxFault_ideal.cfg')
     if not r.ok:
         run.machinery(f'MailboxFault_ideal.cfg fails: {r.violated or r.error}')
-        return run.finish()
+        return
     r = tlc.run_tlc('MailboxFault.tla', 'MailboxFault_asis.cfg', workers=16, timeout=1500)
     run.add_model(r, 'MailboxFault_asis.cfg')
     open_now = set(run.known.open)
     if {'DictMoveWindow', 'MultiAppendOneByOne'} & open_now and r.ok:
         run.machinery('MailboxFault_asis.cfg passes although the tree\'s split critical sections '
                       '(open findings) are modelled: the model does not show them')
-        return run.finish()
+        return
     run.notes['fault_model'] = {'ideal': 'holds', 'asis_violates': r.violated}
     traces, meta = [], []
     ncmd = 45 if tier == 'quick' else 500
@@ -264,7 +317,7 @@ def main(tier: str) -> int:
                                         known=sorted(run.known.open))
     if len(verdicts) != len(traces):
         run.machinery('trace validation incomplete: ' + (vres.error or vres.output[-800:]))
-        return run.finish()
+        return
     for i, ev in enumerate(traces, 1):
         line, clause, used = verdicts[i]
         m = meta[i - 1]
@@ -281,7 +334,7 @@ def main(tier: str) -> int:
                            'events': ev[max(0, line - 14):line]}, sig)
     run.sample(meta[0])
     run.sample(meta[min(len(meta) - 1, 5)])
-    return run.finish()
+    return
 
 
 def classify(clause, m, events, line):
@@ -304,3 +357,575 @@ def classify(clause, m, events, line):
         if prev and str(prev[-1]['to']).startswith(('w:', 'r:')):
             return 'MultiAppendOneByOne'
     return None
+
+
+# =======================================================================================
+# maildir half: process kill at every filesystem-operation boundary of the command under test
+
+MD_CLAUSES = ('C14_NeverInLimbo', 'C14_MoveExactlyOne', 'C14_AllOrNothing', 'C14_RefusedInert')
+MD_FLAGS = ([], ['\\Seen'], ['\\Flagged'], ['\\Deleted'], ['\\Answered', '\\Seen'])
+MD_FAMILIES = ('move1', 'moveN', 'moverev', 'moveother', 'copy1', 'copyN', 'copyself',
+               'copyother', 'append2', 'append3', 'appendother', 'expunge', 'uidexpunge',
+               'close', 'expungeother', 'expungebox',
+               'movemissing', 'copymissing', 'appendmissing', 'copynothing', 'movebad',
+               'movero', 'expungero')
+# model mutant: cfg -> invariant TLC must report
+MD_MODEL_MUTANT = ('MaildirStore_c14_mut_removefirst.cfg', 'MoveNeverInLimbo')
+
+
+def md_history(family: str, rng) -> dict:
+    """one history of the family, seeded.  Content ids: seed messages 1..n in the order they
+    are appended, the second session's delivery 8, the literals of the APPEND under test 11.."""
+    sel = 'Box' if family in ('moverev', 'expungebox') else 'INBOX'
+    oth = 'INBOX' if sel == 'Box' else 'Box'
+    nsel = rng.randint(2, 3)
+    noth = rng.randint(0, 1)
+    flags = [list(rng.choice(MD_FLAGS)) for _ in range(nsel + noth)]
+    seed = [[sel, flags[i]] for i in range(nsel)] + [[oth, flags[nsel + i]] for i in range(noth)]
+    mine = list(range(1, nsel + 1))            # cids in the selected folder, in UID order
+    um = rng.random() < 0.5
+    h = {'family': family, 'seed': seed, 'select': sel, 'other': None}
+
+    def some(k=None):
+        """(form, cids): k messages addressed as a list, a contiguous range or 1:*"""
+        form = rng.choice(['list', 'range', 'star']) if k is None else 'list'
+        if form == 'star':
+            return form, list(mine)
+        n = k or rng.randint(2, nsel)
+        if form == 'range':
+            a = rng.randint(0, nsel - n)
+            return form, mine[a:a + n]
+        return form, sorted(rng.sample(mine, n))
+
+    def other(cids):
+        if rng.random() < 0.5:
+            return ['Store', rng.choice(cids), rng.choice(['\\Deleted', '\\Flagged', '\\Seen'])]
+        return ['Append', rng.choice([sel, oth]), list(rng.choice(MD_FLAGS))]
+
+    def deleted_mix():
+        # at least one \Deleted and one kept message in the selected folder
+        dels = sorted(rng.sample(mine, rng.randint(1, nsel - 1)))
+        for c in mine:
+            fl = [x for x in seed[c - 1][1] if x != '\\Deleted']
+            seed[c - 1][1] = fl + (['\\Deleted'] if c in dels else [])
+        return dels
+    if family == 'move1':
+        h['cut'] = ['Move', um, 'list', [rng.choice(mine)], oth]
+    elif family in ('moveN', 'moverev'):
+        form, cids = some() if family == 'moveN' else some(rng.choice([None, 1]))
+        h['cut'] = ['Move', um, form, cids, oth]
+    elif family == 'moveother':
+        form, cids = some()
+        h['other'] = other(mine)
+        h['cut'] = ['Move', um, form, cids, oth]
+    elif family == 'copy1':
+        h['cut'] = ['Copy', um, 'list', [rng.choice(mine)], oth]
+    elif family == 'copyN':
+        form, cids = some()
+        h['cut'] = ['Copy', um, form, cids, oth]
+    elif family == 'copyself':
+        form, cids = some(rng.choice([None, 1]))
+        h['cut'] = ['Copy', um, form, cids, sel]
+    elif family == 'copyother':
+        form, cids = some()
+        h['other'] = other(mine)
+        h['cut'] = ['Copy', um, form, cids, oth]
+    elif family == 'append2':
+        h['cut'] = ['Append', oth, 2, list(rng.choice(MD_FLAGS))]
+    elif family == 'append3':
+        h['cut'] = ['Append', sel, 3, list(rng.choice(MD_FLAGS))]
+    elif family == 'appendother':
+        h['other'] = other(mine)
+        h['cut'] = ['Append', rng.choice([sel, oth]), rng.randint(2, 3), []]
+    elif family in ('expunge', 'expungebox', 'close'):
+        deleted_mix()
+        h['cut'] = ['Expunge'] if family != 'close' else ['Close']
+    elif family == 'uidexpunge':
+        dels = deleted_mix()
+        form = rng.choice(['list', 'range', 'star'])
+        cids = list(mine) if form == 'star' else sorted(set([rng.choice(dels), rng.choice(mine)]))
+        h['cut'] = ['UidExpunge', form, cids]
+    elif family == 'expungeother':
+        dels = deleted_mix()
+        kept = [c for c in mine if c not in dels]
+        h['other'] = ['Store', rng.choice(kept), '\\Deleted'] if rng.random() < 0.6 \
+            else ['Append', sel, ['\\Deleted']]
+        h['cut'] = rng.choice([['Expunge'], ['Close'], ['UidExpunge', 'star', list(mine)]])
+    elif family == 'movemissing':
+        form, cids = some(rng.choice([None, 1]))
+        h['cut'] = ['Move', um, form, cids, 'Nope']          # NO [TRYCREATE]
+    elif family == 'copymissing':
+        form, cids = some(rng.choice([None, 1]))
+        h['cut'] = ['Copy', um, form, cids, 'Nope']
+    elif family == 'appendmissing':
+        h['cut'] = ['Append', 'Nope', 2, []]
+    elif family == 'copynothing':
+        h['cut'] = [rng.choice(['Copy', 'Move']), um, 'none', [], oth]   # OK, nothing addressed
+    elif family == 'movebad':
+        h['cut'] = ['Raw', rng.choice(['MOVE 0 Box', 'UID MOVE 1:2', 'UID EXPUNGE',
+                                       'MOVE 1,,2 Box', 'COPY 1:2'])]       # BAD
+    elif family in ('movero', 'expungero'):
+        h['readonly'] = True
+        deleted_mix()
+        h['cut'] = ['Move', um, 'list', [rng.choice(mine)], oth] if family == 'movero' \
+            else ['Expunge']                                      # NO [READ-ONLY]
+    else:
+        raise ValueError(family)
+    return h
+
+
+def _md_warm(_i):
+    mc.warm()
+    time.sleep(0.05)
+    return os.getpid()
+
+
+class MaildirPart:
+    """started before anything makes this process multi-threaded (every crash run is a fork
+    of a pool worker); collected after the dict part"""
+
+    def __init__(self, run: Run, tier: str):
+        self.run = run
+        self.tier = tier
+        self.t0 = time.time()
+        self.rng = random.Random(run.seed * 2654435761 + 1414)
+        self.pool = None
+        self.store_root = None
+        self.futs: dict = {}
+        self.jobs: list = []
+        self.models: dict = {}
+        self.model_thread = None
+        self.failed = None
+        self.model_programs: dict = {}
+        self.model_exc = None
+        self.last_done = self.t0
+        sfx = '' if tier == 'quick' else '_4ops'
+        self.model_cfgs = (f'MaildirStore_c14{sfx}.cfg', f'MaildirStore_c14_ideal{sfx}.cfg')
+
+    def start(self) -> None:
+        run, tier, rng = self.run, self.tier, self.rng
+        try:
+            ctx = multiprocessing.get_context('fork')
+            self.pool = cf.ProcessPoolExecutor(max_workers=12, mp_context=ctx)
+            self.store_root = tempfile.mkdtemp(
+                prefix='verif.c14.', dir='/dev/shm' if os.path.isdir('/dev/shm') else None)
+            tmp = os.path.join(self.store_root, 'tmp')
+            os.makedirs(tmp)
+            workers = set(self.pool.map(_md_warm, range(36)))
+            templates = {}
+            for layout in ('++', 'fs'):
+                tpl = os.path.join(self.store_root, f'tpl.{layout}')
+                mc.make_template(mc.Cfg(layout, 'same', self.store_root, tmp), tpl, tmp, False)
+                templates[layout] = tpl
+            rounds = 2 if tier == 'quick' else 12
+            nonce = 'n%d' % run.seed
+            hid = 0
+            for rnd in range(rounds):
+                for fam in MD_FAMILIES:
+                    h = md_history(fam, rng)
+                    for layout in ('++', 'fs'):
+                        self.jobs.append({'cfg': (layout, self.store_root, tmp), 'hist': h,
+                                          'hid': hid, 'nonce': nonce, 'template': templates[layout],
+                                          'points': None, 'pseed': run.seed})
+                    hid += 1
+            # MOVE is acknowledged after its last filesystem operation, so only the runs that
+            # are NOT killed exercise "after a completed MOVE in exactly one": more of those
+            # (no crash points: the command runs to its OK, then the server is restarted)
+            for rnd in range(4 if tier == 'quick' else 40):
+                for fam in ('move1', 'moveN', 'moverev', 'moveother'):
+                    h = md_history(fam, rng)
+                    layout = ('++', 'fs')[(rnd + hid) % 2]
+                    self.jobs.append({'cfg': (layout, self.store_root, tmp), 'hist': h,
+                                      'hid': hid, 'nonce': nonce, 'template': templates[layout],
+                                      'points': 0, 'pseed': run.seed})
+                    hid += 1
+            self.nhist = hid
+            self.nworkers = len(workers)
+            # longest first (APPEND x3 and COPY of several messages have the most operations)
+            def weight(j):
+                c = j['hist']['cut']
+                if j['points'] == 0:
+                    return 0
+                return -(len(c[3]) if c[0] in ('Move', 'Copy') else c[2] if c[0] == 'Append' else 0)
+            for i in sorted(range(len(self.jobs)), key=lambda i: weight(self.jobs[i])):
+                fu = self.pool.submit(mc.run_job14, self.jobs[i])
+                fu.add_done_callback(self._done)
+                self.futs[fu] = i
+        except Exception:
+            import traceback
+            self.failed = 'maildir part: pool / templates: ' + traceback.format_exc()[-1200:]
+            return
+
+        # the design side, meanwhile: MOVE at filesystem-operation granularity with Crash in
+        # every state (as the tree is; ideal), and the model mutant the invariants must reject
+        def check_models():
+            try:
+                for c in self.model_cfgs + (MD_MODEL_MUTANT[0],):
+                    self.models[c] = tlc.run_tlc('MaildirStore.tla', c, workers=4, timeout=900)
+                # multi-message APPEND as the tree delivers it (one message after the other)
+                for c in ('MaildirMulti_torn.cfg', 'MaildirMulti_asis.cfg'):
+                    self.models[c] = tlc.run_tlc('MaildirMulti.tla', c, workers=2, timeout=600)
+                # the model's programs (sequence of filesystem calls per command), out of seeded
+                # crash-free simulation, to be compared with the measured operation traces
+                from .c15 import behaviour_to_history
+                behs, sres = tlc.simulate('MaildirStore.tla', 'MaildirStore_sim_box.cfg',
+                                          num=100 if tier == 'quick' else 400, depth=220,
+                                          seed=run.seed * 7919 + 14)
+                for b in behs:
+                    h = behaviour_to_history(b)
+                    for step, kinds, _uid in (h['model'] if h else []):
+                        self.model_programs.setdefault(step[0], set()).add(tuple(kinds))
+                self.models['simulate'] = sres
+            except Exception:
+                import traceback
+                self.model_exc = traceback.format_exc()[-1200:]
+        self.model_thread = threading.Thread(target=check_models)
+        self.model_thread.start()
+
+    def _done(self, _fu) -> None:
+        self.last_done = time.time()
+
+    def close(self) -> None:
+        if self.pool is not None:
+            self.pool.shutdown(wait=False, cancel_futures=True)
+        if self.store_root:
+            shutil.rmtree(self.store_root, ignore_errors=True)
+
+    def collect(self) -> None:
+        """results -> traces -> TLC -> counts / violations (into self.run)"""
+        run = self.run
+        if self.failed:
+            run.machinery(self.failed)
+            return
+        res_by = {}
+        try:
+            for fu in cf.as_completed(self.futs, timeout=1500):
+                res_by[self.futs[fu]] = fu.result()
+        except Exception:
+            import traceback
+            run.machinery('maildir part: crash enumeration failed: ' + traceback.format_exc()[-1200:])
+            return
+        enum_wall = round(self.last_done - self.t0, 1)
+        results = [res_by[i] for i in range(len(self.jobs))]
+        for r in results:
+            for m in r['machinery']:
+                run.machinery('maildir part: ' + m)
+        if run.machinery_errors:
+            return
+        traces, meta = [], []
+        for job, r in zip(self.jobs, results):
+            for tr in r['traces']:
+                traces.append(tr['events'])
+                meta.append({'hid': job['hid'], 'hist': job['hist'], 'layout': r['cfg'],
+                             'k': tr['k'], 'L': r['L'], 'line': r.get('line', ''),
+                             'failed': tr['failed']})
+        selftests = _md_selftests(traces, meta)
+        n_real = len(traces)
+        t0 = time.time()
+        verdicts, vres = tlc.validate_total('Trace_ConserveKill.tla', 'Trace_ConserveKill.cfg',
+                                            traces + [t for t, _w in selftests],
+                                            known=sorted(run.known.open))
+        val_wall = round(time.time() - t0, 1)
+        if len(verdicts) != n_real + len(selftests):
+            run.machinery('maildir part: trace validation incomplete: '
+                          + (vres.error or vres.output[-800:]))
+            return
+        st_ok = 0
+        for j, (_t, want) in enumerate(selftests):
+            got = verdicts[n_real + j + 1][1]
+            if got == want:
+                st_ok += 1
+            else:
+                run.machinery(f'maildir part: self-test: corrupted trace expected {want}, '
+                              f'observer said {got!r}')
+        per_clause = {c: {'applicable': 0, 'failed': 0} for c in MD_CLAUSES}
+        per_family: dict = {}
+        per_layout: dict = {}
+        acked_kills = 0
+        windows = {'partial': 0, 'complete_unacked': 0}
+        points = 0
+        for i in range(n_real):
+            line, clause, used = verdicts[i + 1]
+            m, ev = meta[i], traces[i]
+            cmd, ack, kill = ev[1], ev[2], ev[3]
+            for name in used:
+                run.known.excuses(name)      # tolerated inside the observer on its signature
+                if name == 'MultiAppendOneByOne':
+                    windows['partial' if kill['delivered'] < cmd['n'] else 'complete_unacked'] += 1
+            fam = m['hist']['family']
+            pf = per_family.setdefault(fam, {'histories': set(), 'runs': 0, 'crash_points': 0,
+                                             'ops': set(), 'cond': set()})
+            pf['histories'].add(m['hid'])
+            pf['runs'] += 1
+            pl = per_layout.setdefault(m['layout'], {'runs': 0, 'crash_points': 0, 'accepted': 0})
+            pl['runs'] += 1
+            if m['k'] >= 0:
+                points += 1
+                pf['crash_points'] += 1
+                pl['crash_points'] += 1
+                if ack['cond'] != 'NONE':
+                    acked_kills += 1
+            else:
+                pf['ops'].add(m['L'])
+                pf['cond'].add(ack['cond'] + (' [%s]' % ack['code'] if ack['code'] else ''))
+            if not clause:
+                pl['accepted'] += 1
+            per_clause['C14_NeverInLimbo']['applicable'] += 1
+            if cmd['op'] == 'move' and ack['cond'] == 'OK':
+                per_clause['C14_MoveExactlyOne']['applicable'] += 1
+            if cmd['op'] == 'append' and cmd['n'] > 1:
+                per_clause['C14_AllOrNothing']['applicable'] += 1
+            if ack['cond'] in ('NO', 'BAD'):
+                per_clause['C14_RefusedInert']['applicable'] += 1
+            run.count_exec(('maildir', m['hist'], m['layout'], m['k']),
+                           nontrivial=m['k'] > 0, validated=not clause)
+            if clause:
+                per_clause.setdefault(clause, {'applicable': 0, 'failed': 0})['failed'] += 1
+                h = m['hist']
+                what = (f'maildir ({m["layout"]}): {clause} after a process kill between '
+                        f'{kill["after"]} and {kill["before"]} (operation {m["k"]} of {m["L"]}) of '
+                        f'{m["line"]!r} [{h["family"]}; seed {json.dumps(h["seed"])}; selected '
+                        f'{h["select"]}; other session: {h["other"]}]; acknowledged: {ack["cond"]} '
+                        f'{ack["pairs"] or ""}; before: {_md_show(ev[0])}; after restart: '
+                        f'{_md_show(ev[4])}') if m['k'] >= 0 else (
+                        f'maildir ({m["layout"]}): {clause} after {m["line"]!r} ran to the end '
+                        f'[{h["family"]}; seed {json.dumps(h["seed"])}; selected {h["select"]}; '
+                        f'other session: {h["other"]}]; answered {ack["cond"]} {ack["pairs"] or ""}; '
+                        f'before: {_md_show(ev[0])}; after restart: {_md_show(ev[4])}')
+                if m['failed']:
+                    what += f'; dump commands the restarted server refused: {m["failed"][:2]}'
+                run.violation(what, {'check': 'C14', 'maildir': True, 'hist': h,
+                                     'layout': m['layout'], 'k': m['k'], 'seed': run.seed,
+                                     'clause': clause, 'events': ev}, None)
+        for pf in per_family.values():
+            pf['histories'] = len(pf['histories'])
+            pf['ops'] = sorted(pf['ops'])
+            pf['cond'] = sorted(pf['cond'])
+        op_table = {}
+        for job, r in zip(self.jobs, results):
+            if r['cfg'] == '++' and r['clean_ops']:
+                op_table.setdefault(f'{job["hist"]["family"]}: {r.get("line", "")[:40]}',
+                                    r['clean_ops'])
+        notes = {
+            'histories': self.nhist, 'jobs': len(self.jobs), 'layouts': ['++', 'fs'],
+            'runs': n_real, 'crash_points': points, 'traces_validated': n_real,
+            'crash_points_sampled': any(r['sampled'] for job, r in zip(self.jobs, results)
+                                        if job['points'] != 0),
+            'histories_run_to_completion_only': sum(1 for j in self.jobs if j['points'] == 0),
+            'per_clause': per_clause, 'per_family': per_family, 'per_layout': per_layout,
+            'kills_after_the_tagged_response': acked_kills,
+            'multiappend_one_by_one_windows': windows,
+            'runs_with_aged_lock_files': sum(r['aged_runs'] for r in results),
+            'prefix_mismatch_runs': sum(r['prefix_mismatch'] for r in results),
+            'selftest_corrupted_traces': {'tried': len(selftests), 'rejected_as_expected': st_ok},
+            'measured_op_traces': dict(sorted(op_table.items())),
+            'pool_workers': self.nworkers,
+            'enumeration_wall_s': enum_wall, 'trace_validation_wall_s': val_wall,
+            'child_wall_s': round(sum(r['wall'] for r in results), 1),
+        }
+        # the model side
+        self.model_thread.join()
+        if self.model_exc:
+            run.machinery('maildir part: model thread: ' + self.model_exc)
+            return
+        notes['model_vs_measured'] = self._compare_programs(results)
+        for c, must_hold in (('MaildirMulti_torn.cfg', True), ('MaildirMulti_asis.cfg', False)):
+            res = self.models.get(c)
+            if res is None:
+                run.machinery(f'maildir part: {c}: no result')
+            elif must_hold:
+                run.add_model(res, c)
+                if not res.ok:
+                    run.machinery(f'maildir part: model check of {c} failed: '
+                                  f'{res.violated or res.error}')
+            else:
+                # the clause of the property on the one-by-one delivery the tree has: TLC must
+                # find the half-applied state as long as the finding is open (else the model
+                # would not be describing what the crash enumeration exhibits)
+                notes['multiappend_model'] = {'cfg': c, 'violated': res.violated,
+                                              'states': res.distinct,
+                                              'expected': 'AppendAllOrNothing is violated'}
+                if 'MultiAppendOneByOne' in run.known.open and \
+                        res.violated[:1] != ['AppendAllOrNothing']:
+                    run.machinery(f'maildir part: {c}: expected AppendAllOrNothing to be violated '
+                                  f'(open finding MultiAppendOneByOne), TLC reported '
+                                  f'{res.violated or res.error or "no error"}')
+        mm = {}
+        for c in self.model_cfgs:
+            res = self.models.get(c)
+            if res is None:
+                run.machinery(f'maildir part: {c}: no result')
+                continue
+            run.add_model(res, c)
+            if not res.ok:
+                run.machinery(f'maildir part: model check of {c} failed: {res.violated or res.error}')
+        res = self.models.get(MD_MODEL_MUTANT[0])
+        if res is not None:
+            got = (res.violated or [None])[0]
+            mm[MD_MODEL_MUTANT[0]] = {'expected': MD_MODEL_MUTANT[1], 'got': got,
+                                      'states': res.distinct}
+            if got != MD_MODEL_MUTANT[1]:
+                run.machinery(f'maildir part: {MD_MODEL_MUTANT[0]}: expected {MD_MODEL_MUTANT[1]}, '
+                              f'TLC reported {got} {res.error or ""}')
+        notes['model_mutant'] = mm
+        notes['wall_s'] = round(time.time() - self.t0, 1)
+        run.notes['maildir'] = notes
+        if traces:
+            run.sample({'maildir': True, 'history': meta[0]['hist'], 'layout': meta[0]['layout'],
+                        'k': meta[0]['k'], 'L': meta[0]['L']}, limit=4)
+
+
+def _md_fits(measured: tuple, prog: tuple, n: int) -> bool:
+    """measured == head + body * n + tail for some split prog == head + body + tail"""
+    if measured == prog:
+        return True
+    for r in range(len(prog)):
+        for t in range(len(prog) - r):
+            body = prog[r:len(prog) - t]
+            if body and prog[:r] + body * n + prog[len(prog) - t:] == measured:
+                return True
+    return False
+
+
+def _md_compare_programs(self, results: list) -> dict:
+    """the filesystem calls the real code made for the command under test (not killed) vs the
+    program MaildirStore.tla runs for that command: single-message commands must be one of the
+    model's programs, n-message commands that program with its per-message part n times.
+    A difference is drift (the model is to be brought in line), never a violation."""
+    from .c15 import kind_of
+    run = self.run
+    compared = mismatched = 0
+    skipped: dict = {}
+    for job, r in zip(self.jobs, results):
+        h = job['hist']
+        cut = h['cut']
+        tr0 = r['traces'][0]['events'] if r['traces'] else None
+        if tr0 is None or tr0[2]['cond'] != 'OK':
+            continue
+        op = {'UidExpunge': 'Expunge', 'Close': 'Expunge'}.get(cut[0], cut[0])
+        measured = tuple(kind_of(x) for x in r['clean_ops'])
+        if op in ('Move', 'Copy'):
+            n = len(cut[3])
+            if cut[4] == h['select']:
+                skipped['onto the selected mailbox (not in the model)'] = \
+                    skipped.get('onto the selected mailbox (not in the model)', 0) + 1
+                continue
+        elif op == 'Append':
+            n = cut[2]
+        else:
+            n = sum(1 for k in measured if k == 'rmmsg')
+        progs = self.model_programs.get(op)
+        if n == 0 or not progs:
+            why = 'addresses nothing' if n == 0 else f'no {op} in the simulated behaviours'
+            skipped[why] = skipped.get(why, 0) + 1
+            continue
+        compared += 1
+        if not any(_md_fits(measured, p, n) for p in progs):
+            mismatched += 1
+            run.drift.append({'part': 'maildir', 'family': h['family'], 'layout': r['cfg'],
+                              'command': r.get('line', '')[:60], 'messages': n,
+                              'measured_ops': list(measured),
+                              'model_programs': [list(p) for p in sorted(progs)][:4]})
+    return {'commands_compared': compared, 'mismatched': mismatched, 'not_compared': skipped,
+            'model_programs': {k: len(v) for k, v in sorted(self.model_programs.items())}}
+
+
+MaildirPart._compare_programs = _md_compare_programs
+
+
+def _md_show(ev: dict) -> str:
+    return '; '.join(f"{b['f']}{'' if b['ok'] else ' (not served)'}: "
+                     + (', '.join(f"uid {m['uid']}=m{m['c']}{'/'.join(x[1:] for x in m['fl']) and ' ' + '/'.join(x[1:] for x in m['fl'])}"
+                                  for m in b['msgs']) or 'empty')
+                     for b in ev['boxes'])
+
+
+def _md_selftests(traces: list, meta: list) -> list:
+    """corrupt one value on the trace side; the observer must name the clause"""
+    out = []
+
+    def pick(pred):
+        for t, m in zip(traces, meta):
+            if pred(t, m):
+                return json.loads(json.dumps(t))
+        return None
+    # 1. a message present before is served nowhere after the restart
+    t = pick(lambda t, m: t[1]['op'] == 'move' and m['k'] > 0 and t[2]['cond'] == 'NONE'
+             and any(b['msgs'] for b in t[4]['boxes']))
+    if t:
+        for b in t[4]['boxes']:
+            b['msgs'] = [x for x in b['msgs'] if x['c'] != t[1]['cids'][0]]
+        out.append((t, 'C14_NeverInLimbo'))
+    # 2. MOVE answered OK but the message is still in the source as well
+    t = pick(lambda t, m: t[1]['op'] == 'move' and t[2]['cond'] == 'OK' and t[2]['pairs']
+             and t[1]['src'] != t[1]['dst'])
+    if t:
+        src = next(b for b in t[0]['boxes'] if b['f'] == t[1]['src'])
+        back = next(x for x in src['msgs'] if x['uid'] == t[2]['pairs'][0][0])
+        next(b for b in t[4]['boxes'] if b['f'] == t[1]['src'])['msgs'].append(back)
+        out.append((t, 'C14_MoveExactlyOne'))
+    # 3. ... or it arrived under another UID than COPYUID says
+    t = pick(lambda t, m: t[1]['op'] == 'move' and t[2]['cond'] == 'OK' and t[2]['pairs']
+             and t[1]['src'] != t[1]['dst'])
+    if t:
+        t[2]['pairs'][0][1] += 5
+        out.append((t, 'C14_MoveExactlyOne'))
+    # 4. a multi-APPEND killed before anything was delivered left its SECOND message
+    t = pick(lambda t, m: t[1]['op'] == 'append' and t[1]['n'] > 1 and m['k'] >= 0
+             and t[3]['delivered'] == 0 and t[2]['cond'] == 'NONE')
+    if t:
+        next(b for b in t[4]['boxes'] if b['f'] == t[1]['dst'])['msgs'].append(
+            {'uid': 90, 'c': t[1]['cids'][1], 'fl': []})
+        out.append((t, 'C14_AllOrNothing'))
+    # 5. ... and one that delivered its first message shows the second one instead (outside the
+    #    signature of the known finding)
+    t = pick(lambda t, m: t[1]['op'] == 'append' and t[1]['n'] > 1 and m['k'] >= 0
+             and t[3]['delivered'] == 1 and t[2]['cond'] == 'NONE')
+    if t:
+        for b in t[4]['boxes']:
+            for x in b['msgs']:
+                if x['c'] == t[1]['cids'][0]:
+                    x['c'] = t[1]['cids'][1]
+        out.append((t, 'C14_AllOrNothing'))
+    # 6. a refused command changed a flag
+    t = pick(lambda t, m: t[2]['cond'] in ('NO', 'BAD') and any(b['msgs'] for b in t[4]['boxes']))
+    if t:
+        b = next(b for b in t[4]['boxes'] if b['msgs'])
+        b['msgs'][0]['fl'] = sorted(set(b['msgs'][0]['fl']) ^ {'\\Answered'})
+        out.append((t, 'C14_RefusedInert'))
+    return out
+
+
+def replay(path: str) -> int:
+    """re-run one maildir (history, layout, k) and print what the observer says"""
+    with open(path) as f:
+        rec = json.load(f)
+    rp_ = rec['replay']
+    if not rp_.get('maildir'):
+        print('only the maildir runs of C14 are replayable from a file')
+        return 2
+    store_root = tempfile.mkdtemp(prefix='verif.c14.', dir='/dev/shm' if os.path.isdir('/dev/shm')
+                                  else None)
+    tmp = os.path.join(store_root, 'tmp')
+    os.makedirs(tmp)
+    try:
+        tpl = os.path.join(store_root, 'tpl')
+        mc.make_template(mc.Cfg(rp_['layout'], 'same', store_root, tmp), tpl, tmp, False)
+        res = mc.run_job14({'cfg': (rp_['layout'], store_root, tmp), 'hist': rp_['hist'], 'hid': 0,
+                            'nonce': 'n%d' % rp_.get('seed', 0), 'template': tpl, 'points': None})
+    finally:
+        shutil.rmtree(store_root, ignore_errors=True)
+    if res['machinery'] or not res['traces']:
+        print('MACHINERY-ERROR', res['machinery'])
+        return 2
+    tr = next((t for t in res['traces'] if t['k'] == rp_['k']), res['traces'][0])
+    verd, _vres = tlc.validate_total('Trace_ConserveKill.tla', 'Trace_ConserveKill.cfg',
+                                     [tr['events']], known=sorted(Known('C14').open))
+    for e in tr['events']:
+        print(json.dumps(e))
+    print('observer:', verd.get(1))
+    if verd.get(1) and verd[1][1]:
+        print(f'VIOLATION property=C14 replay={path}')
+        print('  ' + verd[1][1])
+        return 1
+    return 0
